@@ -199,6 +199,10 @@ func (e *ev) runTpl(t *Tpl) {
 			e.use(n)
 		case "macro", "import", "from", "set", "setcap":
 			e.node(n)
+		case "if", "for", "do":
+			// executed for their assignments and callbacks; what they would
+			// print is not rendered
+			e.capture(func() { e.node(n) })
 		}
 	}
 	prev := e.name
